@@ -21,6 +21,8 @@ func checkC19(c *Ctx) {
 		"K1 re-emission: (*Labels).ToBytes returns either the stored original or a fresh encoding of the current Labels; the original is returned only when re-parsing it failed or when the names parsed from it equal the current names under an exact, element-wise string comparison; both returns exist",
 		"K2 length-prefix agreement: the encoder emits byte(len(part)), the part, and a zero terminator per name (a single zero for the empty name); the decoder treats a zero byte as end of name, a byte with both top bits set as a pointer, anything else as 'next L bytes'",
 		"K3 pointer offset: the jump target is the 14-bit big-endian value ((b0 &^ 0xC0) widened, shifted by 8) + b1; decoding starts at offset 0 of the buffer given",
+		"K6 every caller of the label decoder in the library hands the decoded set on as decoded (no store, copy or writing callee rooted at it after the decode)",
+		"K7 the DHCPv6 options that carry names (domain search list, client FQDN, NTP server FQDN) have the reviewed wire schema: the names go through the label codec, nothing is cached or re-encoded beside it",
 		"K4 decoder obligations shared with C03 (bounds, termination), C08 (no retention), C09 (no amplification) are evaluated there")
 	r.NotDecided = append(r.NotDecided, "which names RFC 1035/4704 assign to an arbitrary byte string (the decoder is a hand-written state machine; only the structural clauses above are judged)")
 	sp := c.P.SSAPkg[lblPkg]
@@ -33,10 +35,36 @@ func checkC19(c *Ctx) {
 	c19Encoder(c)
 	c19Decoder(c)
 	e2CheckLayouts(c, "C19-K1", func(name string, f *ssa.Function) bool { return strings.Contains(name, "rfc1035label.Labels)") }, 2)
+	// the options that carry names encode and decode them through the label codec and nothing else (wire schema rows)
+	e2CheckLayouts(c, "C19-K7", func(name string, f *ssa.Function) bool {
+		return strings.Contains(name, "dhcpv6.optDomainSearchList)") || strings.Contains(name, "dhcpv6.OptFQDN)") || strings.Contains(name, "dhcpv6.NTPSuboptionSrvFQDN)")
+	}, 6)
 	// the decode side of re-emission: what the decoders reject and which fields they set under which condition equal the
 	// reviewed set (E8), and the original bytes are kept for every accepted input
 	e8CheckRejects(c, "C19-K5", func(n string) bool { return strings.Contains(n, "rfc1035label.") }, 1)
 	c19KeepsOriginal(c)
+	// users of the decoder hand its result on as decoded (shared C17-K12): a caller that edits the decoded names breaks both
+	// "decodes to these names" and "an unmodified set re-emits its original bytes"
+	n := 0
+	for _, f := range c.P.ModuleFuncs() {
+		if f.Parent() != nil || f.Blocks == nil || pkgPathOf(f) == lblPkg || strings.HasSuffix(pkgPathOf(f), "_test") {
+			continue
+		}
+		allInstrs(f, func(in ssa.Instruction) {
+			cl, ok := in.(*ssa.Call)
+			if !ok || cl.Call.StaticCallee() == nil {
+				return
+			}
+			sf := cl.Call.StaticCallee()
+			if pkgPathOf(sf) != lblPkg || !strings.HasPrefix(sf.Name(), "FromBytes") {
+				return
+			}
+			n++
+			c17KeepsDecoded(c, "C19-K6", &accInfo{fn: f, decCall: cl})
+		})
+	}
+	r.Count("C19-K6-decode-sites", n)
+	r.Expect("C19-K6-decode-sites", 4)
 }
 
 // c19KeepsOriginal: (*Labels).FromBytes stores a private copy of its whole input in `original` on every accepting path
